@@ -122,6 +122,16 @@ def run(res, ctx):
                 st["no-default-affiliate-rows"] += 1
             if len(samples) < 3:
                 samples.append({"csv": x["hc"]["files"][0], "init": x["hc"]["init"]})
+    # blanks around the symbol do not change which security the position belongs to
+    wcase = {"rows": [{"sec": "FOO", "td": core.BASE_DAY + 50, "sd": core.BASE_DAY + 50, "act": "Sell", "sh": core.D(4), "aps": core.D(5),
+                       "com": None, "cur": None, "rate": None, "af": None}], "inits": {}}
+    ref = run_harness(ctx["exe"], "core", [{"files": [core.to_csv(wcase["rows"])], "init": ["FOO:10:100"]}], nproc=1)[0]
+    for spec in (" FOO:10:100", "FOO :10:100", "\tFOO:10:100"):
+        o = run_harness(ctx["exe"], "core", [{"files": [core.to_csv(wcase["rows"])], "init": [spec]}], nproc=1)[0]
+        st["malformed"] += 1
+        if o.get("status") != ref.get("status") or o.get("secs") != ref.get("secs"):
+            res.violation("failing-input", "opening position %r does not behave like 'FOO:10:100': %s" % (spec, o.get("panic") or o.get("err") or "different rows"),
+                          {"symbol_base": spec, "input": core.to_csv(wcase["rows"]), "actual_impl": o.get("panic") or o.get("err")})
     # malformed specifications are rejected before any processing
     bad_specs = ["FOO", "FOO:1", "FOO:1:2:3", ":1:2", " :1:2", "FOO:x:2", "FOO:1:y", "FOO:-1:2", "FOO:1:-2", "FOO::", "FOO:1.2.3:4"]
     outs = run_harness(ctx["exe"], "core", [{"files": ["security,trade date\nnot,a,valid,csv\n"], "init": [s]} for s in bad_specs], nproc=2)
